@@ -19,25 +19,33 @@ def climb (paths : List D) : Nat → Nat → D → Nat → Option (D × Nat)
     let sib := (paths[ap]?).getD dflt
     climb paths fuel (mt / 2) (if mt % 2 = 0 then H node sib else H sib node) (ap + 1)
 
-/-- the `for old_peak in old_mmra.peaks()` loop of `verify`;
-    state `(num_leafs_remaining, running_leaf_count, ap_index)` -/
+/-- one iteration of the `for old_peak in old_mmra.peaks()` loop of `verify`, on the state
+    `(num_leafs_remaining, running_leaf_count, ap_index)`:
+    `none` = panic / divergence, `some none` = `return false`, `some (some state')` = next iteration -/
+def verifyStep (paths : List D) (new_count : Nat) (new_peaks : List D) (old_peak : D)
+    (remaining running ap : Nat) : Option (Option (Nat × Nat × Nat)) :=
+  if remaining = 0 then none else                         -- `0.ilog2()` panics
+  let old_height := Nat.log2 remaining
+  if !(running < new_count) then none else                -- `assert!(leaf_index < leaf_count)`
+  let mp := leaf_index_to_mt_index_and_peak_index running new_count      -- `(mt_index, peak_index)`
+  match climb H dflt paths descentFuel (mp.1 / 2 ^ old_height) old_peak ap with
+  | none => none
+  | some (node, ap') =>
+    match new_peaks[mp.2]? with
+    | none => none                                        -- `new_mmra.peaks()[new_peak_index]` out of bounds
+    | some p =>
+      if p ≠ node then some none
+      else some (some (remaining - 2 ^ old_height, running + 2 ^ old_height, ap'))
+
+/-- the `for old_peak in old_mmra.peaks()` loop of `verify` and the final `ap_index == self.paths.len()` -/
 def verifyPeaks (paths : List D) (new_count : Nat) (new_peaks : List D) :
     List D → Nat → Nat → Nat → Option Bool
   | [], _, _, ap => some (ap == paths.length)
   | old_peak :: rest, remaining, running, ap =>
-    if remaining = 0 then none else                         -- `0.ilog2()` panics
-    let old_height := Nat.log2 remaining
-    let remaining' := remaining - 2 ^ old_height
-    if !(running < new_count) then none else               -- `assert!(leaf_index < leaf_count)`
-    let (mt, pk) := leaf_index_to_mt_index_and_peak_index running new_count
-    match climb H dflt paths descentFuel (mt / 2 ^ old_height) old_peak ap with
+    match verifyStep H dflt paths new_count new_peaks old_peak remaining running ap with
     | none => none
-    | some (node, ap') =>
-      match new_peaks[pk]? with
-      | none => none                                        -- `new_mmra.peaks()[new_peak_index]` out of bounds
-      | some p =>
-        if p ≠ node then some false
-        else verifyPeaks paths new_count new_peaks rest remaining' (running + 2 ^ old_height) ap'
+    | some none => some false
+    | some (some (remaining', running', ap')) => verifyPeaks paths new_count new_peaks rest remaining' running' ap'
 
 /-- `MmrSuccessorProof::verify(&self, old_mmra, new_mmra)` (after fix F3) -/
 def verify (paths : List D) (old new : Acc D) : Option Bool :=
